@@ -115,6 +115,11 @@ def main(tier, seed):
         ck.violation({"kind": "correspondence-broken", "query": q, "implementation_outcomes_over_universe": expected[mism[0]],
                       "what_no_longer_checks": "correspondence Query.eval (theorems C09_*) vs SimpleQuery/CompoundQuery.__call__",
                       "disagreeing_queries": len(mism)}, no_input=True)
+    for f_ in load_known_findings():
+        if f_.get("status") == "known" and "C09" in f_.get("properties", []) and f_.get("repro"):
+            rc_, out_ = sh([PY, str(VERIF / "findings" / "repro.py"), f_["repro"]], env=impl_env(), timeout=120)
+            if "DEFECT" in out_:
+                ck.known_finding(f"{f_['id']}: {f_['what']}")
     ck.cov = {
         "same_object_after_in_place_edit_checked": edited_checked, "queries_unchanged_by_deriving_from_them_checked": derived_checked, "type_sensitive_tests_checked": sens_checked,
         "translator": {"source": "tinyflux/queries.py: every place a query object gets its _hash key, its test operator, its == -> coq/gen/QueryGen.v (regenerated on this run)",
